@@ -14,7 +14,7 @@ PROPERTY = 'C08'
 META = {
     'level': 'exploration',
     'technique': 'runtime monitors under hostile workloads: logical step budget via sys.monitoring, write-acknowledgement state oracle, and liveness canaries on other sessions; random bytes plus structure-aware mutation of every valid message kind',
-    'text': 'Each hostile input is a whole connection (Register, hostile bytes, EOF) against the real simulator: in-process through the same per-frame calls enip_srv_tcp makes (with the step meter), and '
+    'text': 'Every third live connection is ended by a reset (close with SO_LINGER 0) instead of an orderly close, after which the connection table must drain and a new connection from the same source address must be served. Each hostile input is a whole connection (Register, hostile bytes, EOF) against the real simulator: in-process through the same per-frame calls enip_srv_tcp makes (with the step meter), and '
             'live against the TCP server (containment). Inputs: random byte strings, and mutations of valid frames of every kind - bit flips, inserted/deleted/duplicated spans, truncation, and '
             'inconsistent length/count/offset fields at every nesting level (encapsulation length, CPF count and item lengths, Unconnected Send length and path sizes, symbolic length, bundle count and '
             'offsets incl. descending/overlapping/out-of-range, extended-status size, Forward Open path size), also several in sequence on one connection. Per input: steps <= budget(length) where the '
@@ -25,7 +25,7 @@ META = {
 LEVEL = META['level']
 RULE = ('a case = one hostile connection (valid prefix + hostile bytes + EOF) judged by all monitors; distinct by the hostile bytes; non-trivial = the input is not a valid unmodified frame sequence')
 ASSUMPTIONS = ['step budget = 50 x (worst steps per byte over valid frames) x input length + 20000', 'a write is "acknowledged" by a status-0 reply of service 0xCD / 0xD3 / 0x90, alone or inside an 0x8A bundle reply']
-REQUIRED = ['inputs', 'class:random-bytes', 'class:bitflip', 'class:span-edit', 'class:truncated', 'class:length-field', 'class:bundle-offsets', 'class:sequence',
+REQUIRED = ['live:connection-reset', 'inputs', 'class:random-bytes', 'class:bitflip', 'class:span-edit', 'class:truncated', 'class:length-field', 'class:bundle-offsets', 'class:sequence',
             'end:error', 'end:closed-by-server', 'end:eof', 'monitor:step-budget', 'monitor:state-oracle', 'monitor:canary-long-lived', 'monitor:canary-fresh',
             'live:inputs', 'live:listener-accepts', 'live:thread-count-stable', 'state-changed-with-acknowledged-write']
 TIMEOUT = {'quick': 300, 'thorough': 2400}
@@ -299,6 +299,59 @@ def live(ctx, rng, n):
             before = sim.state()
             s = socket.create_connection(sim.address, timeout=5)
             got = b''
+            ending = 'rst' if k % 3 == 2 else 'fin'
+            local = s.getsockname()
+            if ending == 'rst':
+                # the peer vanishes abruptly: whatever it sent, the connection is then reset (close with SO_LINGER 0) instead of
+                # closed in an orderly way; the tag oracle is skipped (replies cannot be collected reliably), everything else applies,
+                # and the same source address must be served when it connects again
+                try:
+                    s.sendall(rc.register_frame())
+                    s.sendall(hostile)
+                    s.settimeout(0.05)
+                    try:
+                        s.recv(65536)
+                    except (socket.timeout, OSError):
+                        pass
+                    s.setsockopt(socket.SOL_SOCKET, socket.SO_LINGER, struct.pack('ii', 1, 0))
+                finally:
+                    s.close()
+                ctx.count('live:connection-reset')
+                for _ in range(200):
+                    if sim.connections() <= 1:
+                        break
+                    time.sleep(0.01)
+                again = socket.socket()
+                try:
+                    again.setsockopt(socket.SOL_SOCKET, socket.SO_REUSEADDR, 1)
+                    again.settimeout(5)
+                    try:
+                        again.bind(local)
+                        again.connect(sim.address)
+                    except OSError:
+                        again = None            # the kernel does not let us have the port back yet: nothing to observe
+                    if again is not None:
+                        again.sendall(rc.register_frame())
+                        hdr = b''
+                        try:
+                            while len(hdr) < 28:
+                                c = again.recv(28 - len(hdr))
+                                if not c:
+                                    break
+                                hdr += c
+                        except OSError:
+                            pass
+                        ctx.count('live:same-source-address-again')
+                        if len(hdr) < 28 or rc.dec_header(hdr)['status'] != 0 or rc.dec_header(hdr)['session_handle'] == 0:
+                            ctx.violation('session-refused-after-peer-reset', 'live: after a connection from %r was reset (%s input), a new connection from the same source address '
+                                          'got %d bytes instead of a Register Session reply' % (local, label, len(hdr)), wit)
+                            return
+                finally:
+                    if again is not None:
+                        again.close()
+                known = list(sim.state()['H'])
+                s = socket.create_connection(sim.address, timeout=5)
+                hostile = b''
             try:
                 s.sendall(rc.register_frame())
                 s.sendall(hostile)
@@ -321,7 +374,9 @@ def live(ctx, rng, n):
             ctx.case(('live', hostile))
             replies, rest = rc.split_frames(got)
             after = sim.state()
-            if after != before:
+            if after != before and ending == 'rst':
+                known = list(after['H'])
+            elif after != before:
                 if not acknowledged_write(replies):
                     ctx.violation('tag-changed-without-acknowledged-write', 'live: %s input changed tags without an acknowledged write' % label, wit)
                     return
